@@ -34,6 +34,10 @@ def scratch_with(patch):
     shutil.copytree(os.path.join(REPO, "valida"), os.path.join(tmp, "valida"))
     shutil.copytree(os.path.join(REPO, "tests"), os.path.join(tmp, "tests"))
     rc, out = sh(["git", "apply", "--whitespace=nowarn", os.path.abspath(patch)], cwd=tmp)
+    if rc != 0:
+        # /repo has moved on since the patch was written (later fix: commits): retry with fuzz
+        rc, out2 = sh(["patch", "-p1", "-F3", "--no-backup-if-mismatch", "-i", os.path.abspath(patch)], cwd=tmp)
+        out += out2
     return tmp, rc, out
 
 
